@@ -12,6 +12,13 @@
 #include <mutex>
 #include <string>
 
+#include <iostream>
+#include <map>
+#include <memory>
+#include <sstream>
+#include <thread>
+#include <vector>
+#define private public      // the parsed Limits and the root position inside Search are private
 #include "endgame.h"
 #include "info.h"
 #include "logger.h"
@@ -45,8 +52,25 @@ static void cb_node(Search*, int, Info* info, int, Value, Value)
     if (g_park_visit >= 0 && v == g_park_visit + 1) park("visit");
 }
 
-static void cb_point(Search*, int point)
+static bool g_dump_limits = false;
+
+// VERIF_DUMP_LIMITS=1: at go entry print what Uci::go_command parsed (the Limits the Search was built from), then stop the
+// search at once, so that every go - whatever its limits - ends immediately
+static void dump_limits(Search* s)
 {
+    const Limits& l = s->limits;
+    std::string ms;
+    for (int i = 0; i < l.searchmovesnum; ++i) ms += (i ? "," : "") + s->_position.uci(l.searchmoves[i]);
+    sync_cout << "info string VERIF limits ponder=" << (l.ponder ? 1 : 0) << " wtime=" << l.timeleft[WHITE] << " btime=" << l.timeleft[BLACK]
+              << " winc=" << l.timeinc[WHITE] << " binc=" << l.timeinc[BLACK] << " movestogo=" << l.movestogo << " depth=" << l.depth
+              << " nodes=" << l.nodes << " mate=" << l.mate << " movetime=" << l.movetime << " infinite=" << (l.infinite ? 1 : 0)
+              << " searchmoves=" << (ms.empty() ? "-" : ms) << sync_endl;
+    s->stop();
+}
+
+static void cb_point(Search* s, int point)
+{
+    if (point == 0 && g_dump_limits) { dump_limits(s); return; }
     if (point == 6)
     {
         // reader thread, right after the flag was set
@@ -72,6 +96,7 @@ int main()
         if (!strncmp(e, "point:", 6)) g_park_point = atoi(e + 6);
         if (!strncmp(e, "visit:", 6)) g_park_visit = atoll(e + 6);
     }
+    if (getenv("VERIF_DUMP_LIMITS")) g_dump_limits = true;
     verif::on_node = cb_node;
     verif::on_point = cb_point;
     move_bitboards::init();
